@@ -1880,6 +1880,8 @@ class Interp:
         if isinstance(f, ast.Attribute) and isinstance(f.value, ast.Name) and f.value.id in ('self', 'cls') and self.model is not None:
             cls = getattr(self.h, 'cls', None) or getattr(fn, 'cls', None)
             me = s.env.get(f.value.id)
+            if isinstance(me, M.ClassInfo):
+                cls = me                        # cls.helper(...) inside a class method: the class it was called on
             if isinstance(me, Obj) and isinstance(me.cls, M.ClassInfo):
                 cls = me.cls                    # the object the method runs on (a receiver of an inlined call)
                 if f.attr in me.attrs:
@@ -2683,6 +2685,10 @@ class Interp:
                 if o is not TOP:
                     return o
             r = m.getattr_static(base, attr)
+            if isinstance(base, M.ClassInfo) and isinstance(r, M.FunctionInfo) and self.heap \
+               and any(d.split('.')[-1] == 'classmethod' for d in r.decorators):
+                # Class.method of a class method: bound to the class it is taken from
+                return Sym('boundmethod:%s' % r.fullname, truthy=True, attrs={'recv': base, 'fn': r})
             return self._from_model(r)
         if isinstance(base, M.External) and base.name == 're' and attr in ('I', 'S', 'M', 'X', 'A', 'U', 'IGNORECASE', 'DOTALL', 'MULTILINE', 'VERBOSE', 'ASCII', 'UNICODE'):
             return int(getattr(_re_mod, attr))
@@ -3200,7 +3206,8 @@ class Interp:
         inst_attr = False
         if isinstance(fval, Sym) and fval.label.startswith('boundmethod:') and isinstance(n.func, ast.Attribute) and isinstance(n.func.value, (ast.Name, ast.Attribute)):
             holder = self.ev(n.func.value, s)
-            inst_attr = isinstance(holder, Obj) and holder.attrs.get(n.func.attr) is fval     # self.keys = top.keys ; self.keys()
+            inst_attr = (isinstance(holder, Obj) and holder.attrs.get(n.func.attr) is fval) \
+                or (isinstance(holder, M.ClassInfo) and fval.attrs.get('recv') is holder)      # self.keys = top.keys ; self.keys()  /  Class.classmethod()
         if isinstance(fval, Sym) and fval.label.startswith('boundmethod:') and (not isinstance(n.func, ast.Attribute) or inst_attr):
             r = self.apply_value(fval, list(args), kwargs, s, n.lineno)
             if r is not None:
@@ -5330,7 +5337,10 @@ def private_only(fname, node, info):
 def helpers_anywhere(fname, node, info):
     """should_inline filter: private helpers (as private_only) and the module-level functions of the package, wherever they live -
     the pure helpers that a method is split into."""
-    return private_only(fname, node, info) or (info is not None and getattr(info, 'cls', None) is None)
+    if private_only(fname, node, info) or (info is not None and getattr(info, 'cls', None) is None):
+        return True
+    # static and class methods carry no instance state: name builders, parsers, factories
+    return info is not None and any(d.split('.')[-1] in ('staticmethod', 'classmethod') for d in getattr(info, 'decorators', ()))
 
 
 def events(trace, kind=None, name=None):
